@@ -206,6 +206,12 @@ def r3(R, repo):
   ok = ok and 'issubclass(p, variablelib.Variable)' in astu.src(sv.node) and 't.mro()' in astu.src(sv.node)
   keyl = astu.kwarg(rets[0], 'key') if len(rets) == 1 and isinstance(rets[0], ast.Call) and astu.call_name(rets[0]) == 'sorted' else None
   asc = keyl is not None and 'parent_count' in astu.src(keyl) and not any(isinstance(x, ast.UnaryOp) and isinstance(x.op, ast.USub) for x in ast.walk(keyl)) and not astu.is_const(astu.kwarg(rets[0], 'reverse'), True)
+  # key=<the counting function itself>: ascending by the number of Variable ancestors, i.e. bases first
+  if len(rets) == 1 and isinstance(rets[0], ast.Call) and astu.call_name(rets[0]) == 'sorted' and isinstance(astu.kwarg(rets[0], 'key'), ast.Name) and not astu.is_const(astu.kwarg(rets[0], 'reverse'), True):
+    kf = sv.mod.funcs.get(sv.qual + '.' + astu.kwarg(rets[0], 'key').id)
+    if kf is not None and 'mro()' in astu.src(kf.node):
+      R.fail(key_of(sv, 'sorted by number of Variable ancestors, descending, as the primary key'), (sv, rets[0]), '`%s` sorts ascending by the number of Variable ancestors: base classes come first and (nnx.split being first-match with isinstance) swallow the variables of their subclasses' % astu.short(rets[0]))
+      return
   # a later stable sort by another key becomes the primary order: follow `sorted(<name bound to sorted(...)>, key=...)`
   resorted = None
   if len(rets) == 1 and isinstance(rets[0], ast.Call) and astu.call_name(rets[0]) == 'sorted' and rets[0].args and (keyl is None or 'parent_count' not in astu.src(keyl)):
